@@ -1088,3 +1088,134 @@ Proof.
   destruct (dec_geometry_with_total _ dec_node_rec_total bs) as [H3 _].
   split; [exact H1|]. split; [exact H3|exact H2].
 Qed.
+
+(* ------------------------------------------------------------------ size of the pending work list *)
+
+(** shape of what one iteration pushes *)
+Lemma stack_step_pushes root par level stk bs root2 stk2 r :
+  stack_step root par level stk bs = Ok (root2, stk2, r) ->
+  exists cur n, stk2 = repeat (Some cur, match par with Some _ => level + 1 | None => level end) n ++ stk /\
+                (n <= length r)%nat /\ (length r < length bs)%nat /\
+                (par <> None -> level <= kMaxSubmetadataLevel).
+Proof.
+  intros H. destruct (stack_step_total root par level stk bs) as [_ Hb].
+  destruct (Hb _ _ _ H) as (Hr & _ & _).
+  unfold stack_step in H.
+  match type of H with context [match ?X with Ok _ => _ | Fail => Fail | OutOfFuel => OutOfFuel end] =>
+    match X with match par with Some _ => _ | None => _ end => set (start := X) in * end end.
+  assert (Hl: forall x, start = Ok x -> par <> None -> level <= kMaxSubmetadataLevel).
+  { subst start. destruct par as [p|]; [|congruence].
+    destruct (level >? kMaxSubmetadataLevel) eqn:E; [discriminate|]. intros; lia. }
+  destruct start as [[[root1 cur] r0]| |]; [|discriminate|discriminate].
+  specialize (Hl _ eq_refl).
+  destruct (dec_varint_u 32 r0) as [[ne r1]|]; [|discriminate].
+  destruct (dec_entries_at (S (length r1)) ne cur root1 r1) as [[root2' r2]| |]; [|discriminate|discriminate].
+  destruct (dec_varint_u 32 r2) as [[ns r3]|]; [|discriminate].
+  destruct (ns >? len r3) eqn:Eg; [discriminate|].
+  injection H as <- <- <-. exists cur, (Z.to_nat ns).
+  split; [reflexivity|]. split; [unfold len in Eg; lia|]. split; [lia|exact Hl].
+Qed.
+
+Definition flevel (f : frame) : Z := snd f.
+
+(** every suffix of the work list is short relative to the level of its first frame, and levels
+    do not increase towards the bottom *)
+Fixpoint stk_inv (N : Z) (stk : list frame) : Prop :=
+  match stk with
+  | [] => True
+  | f :: rest =>
+    0 <= flevel f <= kMaxSubmetadataLevel + 1 /\
+    Z.of_nat (length stk) <= (flevel f + 1) * N + 1 /\
+    match rest with [] => True | g :: _ => flevel g <= flevel f end /\
+    stk_inv N rest
+  end.
+
+Lemma stk_inv_push N l cur : forall n rest, 0 <= N -> Z.of_nat n <= N -> 0 <= l <= kMaxSubmetadataLevel + 1 ->
+  stk_inv N rest ->
+  match rest with [] => True | g :: _ => flevel g + 1 <= l end ->
+  stk_inv N (repeat (Some cur, l) n ++ rest).
+Proof.
+  induction n as [|n IH]; intros rest HN Hn Hl Hinv Hrest; [exact Hinv|].
+  cbn [repeat app stk_inv]. unfold flevel in *. cbn [snd].
+  split; [exact Hl|]. split; [|split; [|apply IH; auto; lia]].
+  - change (length ((Some cur, l) :: repeat (Some cur, l) n ++ rest)) with (S (length (repeat (Some cur, l) n ++ rest))).
+    rewrite app_length, repeat_length.
+    assert (Hm: N <= (l + 1) * N) by nia.
+    destruct rest as [|g rest'].
+    + change (length (@nil frame)) with O. lia.
+    + cbn [stk_inv] in Hinv. destruct Hinv as (Hg & Hlen & _).
+      assert (Hm2: (snd g + 1) * N + N <= (l + 1) * N) by nia.
+      unfold frame, flevel in *. lia.
+  - destruct n as [|n']; cbn [repeat app].
+    + destruct rest as [|g rest']; [exact I|]. lia.
+    + cbn [snd]. lia.
+Qed.
+
+Definition state := (node * list frame * bytes)%type.
+(** states the while loop passes through *)
+Inductive reach : state -> state -> Prop :=
+| reach_refl s : reach s s
+| reach_step root par level stk bs root2 stk2 r s' :
+    stack_step root par level stk bs = Ok (root2, stk2, r) ->
+    reach (root2, stk2, r) s' -> reach (root, (par, level) :: stk, bs) s'.
+
+Definition st_inv (N : Z) (s : state) : Prop :=
+  match s with (_, stk, bs) =>
+    Z.of_nat (length bs) <= N /\ stk_inv N stk /\
+    Forall (fun f => fst f = None -> stk = [f] /\ snd f = 0) stk
+  end.
+
+Lemma st_inv_step N root par level stk bs root2 stk2 r :
+  st_inv N (root, (par, level) :: stk, bs) ->
+  stack_step root par level stk bs = Ok (root2, stk2, r) -> st_inv N (root2, stk2, r).
+Proof.
+  intros (Hb & Hinv & Hnone) Hstep.
+  destruct (stack_step_pushes _ _ _ _ _ _ _ _ Hstep) as (cur & n & -> & Hn & Hr & Hlv).
+  cbn [stk_inv] in Hinv. destruct Hinv as (Hl & Hlen & Hord & Hrest). unfold flevel in Hl, Hlen, Hord. cbn [snd] in *.
+  inversion Hnone as [|? ? Hhead Htail]; subst. cbn [fst snd] in Hhead.
+  assert (HN: 0 <= N) by lia.
+  split; [lia|]. split.
+  - destruct par as [p|].
+    + specialize (Hlv ltac:(discriminate)).
+      apply stk_inv_push; auto; try lia.
+      destruct stk as [|g rest']; [exact I|]. unfold flevel in *. lia.
+    + destruct (Hhead eq_refl) as [Hs Hz]. injection Hs as ->. subst level.
+      apply stk_inv_push; auto; try lia.
+  - apply Forall_app. split.
+    + apply Forall_forall. intros f Hf. apply repeat_spec in Hf. subst f. cbn [fst]. discriminate.
+    + destruct par as [p|].
+      * eapply Forall_impl; [|exact Htail]. intros f Hf Hfn. destruct (Hf Hfn) as [Hs _]. injection Hs as <- _. cbn in Hfn. discriminate.
+      * destruct (Hhead eq_refl) as [Hs _]. injection Hs as ->. constructor.
+Qed.
+
+(** The work list of a whole run: never more than (kMaxSubmetadataLevel + 2) * input length + 1 frames. *)
+Lemma stack_peak_bound bs0 root stk bs :
+  reach (Node [] [], [(None, 0)], bs0) (root, stk, bs) ->
+  Z.of_nat (length stk) <= (kMaxSubmetadataLevel + 2) * Z.of_nat (length bs0) + 1 /\
+  (length bs <= length bs0)%nat.
+Proof.
+  intros H. set (N := Z.of_nat (length bs0)).
+  assert (H0: st_inv N (Node [] [], [(None, 0)], bs0)).
+  { split; [unfold N; lia|]. split.
+    - cbn [stk_inv length]. unfold flevel, kMaxSubmetadataLevel. cbn [snd]. repeat split; try lia; exact I.
+    - constructor; [|constructor]. intros _. split; reflexivity. }
+  assert (Hfin: st_inv N (root, stk, bs)).
+  { remember (Node [] [], [(None, 0)], bs0) as s0 eqn:E0. remember (root, stk, bs) as s1 eqn:E1.
+    clear E0. induction H as [s|root' par level stk' bs' root2 stk2 r s' Hstep Hreach IH]; [subst; exact H0|].
+    apply IH; [exact E1|eapply st_inv_step; eassumption]. }
+  destruct Hfin as (Hb & Hinv & _). split; [|unfold N in Hb; lia].
+  destruct stk as [|f rest]; [cbn [length]; unfold kMaxSubmetadataLevel; lia|].
+  cbn [stk_inv] in Hinv. destruct Hinv as (Hl & Hlen & _).
+  assert (0 <= N) by (unfold N; lia). unfold kMaxSubmetadataLevel in *. nia.
+Qed.
+
+(** [stack_loop] is the iteration of [stack_step] along [reach]. *)
+Lemma stack_loop_reach : forall fuel root stk bs t r, stack_loop fuel root stk bs = Ok (t, r) ->
+  reach (root, stk, bs) (t, [], r).
+Proof.
+  induction fuel as [|fuel IH]; intros root stk bs t r H.
+  - destruct stk as [|[par level] stk']; [|discriminate]. cbn in H. injection H as <- <-. constructor.
+  - cbn [stack_loop] in H. destruct stk as [|[par level] stk']; [injection H as <- <-; constructor|].
+    destruct (stack_step root par level stk' bs) as [[[root2 stk2] r3]| |] eqn:E; [|discriminate|discriminate].
+    eapply reach_step; [exact E|apply IH; exact H].
+Qed.
